@@ -5,7 +5,7 @@ open Lean Drv ESV ESV.Static
 
 /-
 Driver glue for C10: `static.check` {world: [[key, file]], root, cfg?} and `static.check_core` {prog (core AST)}.
-file = {"imports": [key | null], "macros": [{"name","vars","body"}], "routines": [body | null], "ssbscript": bool}
+file = {"imports": [key | null], "macros": [{"name","vars","body"}], "routines": [{"id": int | null (coro), "fixed": bool, "body": body | null (alias)}], "ssbscript": bool}
 stmt = ["op", inline] | ["label", n] | ["jump", n] | ["call", n] | ["ret"] | ["end"] | ["hold"] | ["break"] |
        ["continue"] | ["break_loop"] | ["with", stmt] | ["if", [[neg, [hdr], body]], else_body] | ["switch", cases] |
        ["msgswitch", cases] | ["forever", body] | ["while", hdr, body] | ["for", init, hdr, inc, body] | ["macro", name, nargs]
@@ -70,7 +70,11 @@ def fileOf (j : Json) : R File := do
   let imports ← (← asArr (← fld j "imports")).mapM (asOpt asStr)
   let macros ← (← asArr (← fld j "macros")).mapM fun m => do
     pure (⟨← asStr (← fld m "name"), ← (← asArr (← fld m "vars")).mapM asStr, ← stmtsOf (← fld m "body")⟩ : Static.Macro)
-  let routines ← (← asArr (← fld j "routines")).mapM (asOpt stmtsOf)
+  let routines ← (← asArr (← fld j "routines")).mapM fun r => do
+    let fixed ← match r.getObjVal? "fixed" with
+      | .ok v => asBool v
+      | .error _ => pure false
+    pure ({ id := ← asOpt asInt (← fld r "id"), fixedTarget := fixed, body := ← asOpt stmtsOf (← fld r "body") } : Routine)
   let ssb ← match j.getObjVal? "ssbscript" with
     | .ok v => asBool v
     | .error _ => pure false
@@ -83,10 +87,7 @@ def cfgOf (j : Json) : R Cfg := do
     let perf ← match c.getObjVal? "perf" with
       | .ok v => asStr v
       | .error _ => pure ({} : Cfg).perfVar
-    let re ← match c.getObjVal? "reparse_empty" with
-      | .ok v => asBool v
-      | .error _ => pure true
-    pure { perfVar := perf, reparseEmpty := re }
+    pure { perfVar := perf }
 
 def clsName : ErrKind → String
   | .ssbCompilerError => "SsbCompilerError"
@@ -100,9 +101,11 @@ def localPhase (cfg : Cfg) (imported : List Static.Macro) (f : File) : String :=
   if macroCycle f.macros then "macro-cycle"
   else if !(checkBodies env (f.macros.map fun m => m.body)).ok? then
     (if (f.macros.all fun m => addOkSs cfg.perfVar m.body) then "macro-body-collect" else "macro-body-add")
-  else if !(checkBodies env f.routineBodies).ok? then
-    (if (f.routineBodies.all fun b => addOkSs cfg.perfVar b) then "routine-collect" else "routine-add")
-  else if f.routineBodies.any (routineOpsFree ms) then "strip-last-label"
+  else if !(routinesGo env (-1) 0 f.routines).ok? then
+    (if !(routinesGo env (-1) 0 (f.routines.map fun r => { r with body := none, fixedTarget := false })).ok? then "routine-id"
+     else if !(f.routineBodies.all fun b => addOkSs cfg.perfVar b) then "routine-add"
+     else if f.routines.any (fun r => r.fixedTarget) then "routine-target-or-collect"
+     else "routine-collect")
   else if labelsBad ms f then "labels"
   else "none"
 
